@@ -102,10 +102,25 @@ def rule_mark(R):
         return
     mk = marks[0]
     ncall = 0
-    for b in f.bodies.values():
-        if f.in_fuzzing(b):
-            continue
-        for c in outq.calls_to(f, b, mk):
+
+    class _Site:
+        def __init__(self, bb, span):
+            self.bb, self.span = bb, span
+    sites = []
+    if mk.name == hcode.name:
+        # the marker is not a function of its own: the handshake stores the flag itself
+        for (b_, bb_, j_, dst_, rv_, s_, final_) in f.field_stores(SDATA, "session_present"):
+            t_ = b_.rvalue_term(rv_)
+            if b_.name == hcode.name and t_[0] == "const" and t_[2] == 1:
+                sites.append((hcode, _Site(bb_, s_["span"])))
+    else:
+        for b in f.bodies.values():
+            if f.in_fuzzing(b):
+                continue
+            for c in outq.calls_to(f, b, mk):
+                sites.append((b, c))
+    for b, c in sites:
+        if True:
             ncall += 1
             if b.name != hcode.name:
                 R.ob("mark/caller/%s" % b.fn_name, False,
